@@ -70,6 +70,9 @@ func (r *RunCtx) Violate(prop, check string, disc map[string]string, format stri
 	v := Violation{Property: prop, Check: check, Disc: disc, Detail: fmt.Sprintf(format, args...), Height: r.curH, TxPos: r.curTx, EventIdx: r.events}
 	v.KeyStr = v.Key()
 	r.Logf("VIOL %s", v.KeyStr)
+	if r.KeepLog {
+		r.LogLines = append(r.LogLines, "     detail: "+v.Detail)
+	}
 	if prop != r.Prop {
 		r.Cross["viol:"+v.Key()]++
 		return
